@@ -26,6 +26,7 @@ theorem mHandlesOf_bodyOK : ∀ (op : Host) (nh : Nat), BodyOK op → mHandlesOf
   | .loopUntil _ body _ _ cl, nh, h => by
     simp [mHandlesOf, mHandlesOf_bodyOK body _ h.1, mHandlesOf_bodyOK cl _ h.2]
   | .tryUntil _ body, nh, h => by simp [mHandlesOf, mHandlesOf_bodyOK body nh h]
+  | .epr _, _, h => h.elim
 
 theorem Rel.weakenMH {H : List (Reg × Bool)} {L MH MH' : List Nat} {act mu : List Bool} {hs : HSt} {ts : St}
     (h : Rel H L MH act mu hs ts) (hm : ∀ x, x ∈ MH → x ∈ MH') : Rel H L MH' act mu hs ts :=
